@@ -192,7 +192,8 @@ func fieldAddrRef(v ssa.Value) (FieldRef, ssa.Value, bool) {
 	if !ok {
 		return FieldRef{}, nil, false
 	}
-	return FieldRef{Owner: strings.TrimPrefix(typeName(pt.Elem()), "*"), Name: st.Field(fa.Field).Name()}, fa.X, true
+	owner := strings.TrimPrefix(typeName(pt.Elem()), "*")
+	return FieldRef{Owner: owner, Name: canonField(owner, st.Field(fa.Field).Name())}, fa.X, true
 }
 
 // fieldValRef decodes a Field (value struct) access.
@@ -205,7 +206,7 @@ func fieldValRef(v ssa.Value) (FieldRef, ssa.Value, bool) {
 	if !ok {
 		return FieldRef{}, nil, false
 	}
-	return FieldRef{Owner: typeName(f.X.Type()), Name: st.Field(f.Field).Name()}, f.X, true
+	return FieldRef{Owner: typeName(f.X.Type()), Name: canonField(typeName(f.X.Type()), st.Field(f.Field).Name())}, f.X, true
 }
 
 // loadedField: v is `*FieldAddr` (UnOp MUL) or a Field value; returns the field.
